@@ -438,7 +438,7 @@ def run(ck):
     if f:
         for (bi, t) in f.calls(r"Vec::<T, A>::resize$"):
             o = f.origins(t["args"][1], deep=True)
-            ck.ob("CMP", f.path, "resize-min-MAX_CONTRACT_STATE", has_call_origin(o, r"cmp::min$") and any(a[0] == "const" and a[1].endswith("MAX_CONTRACT_STATE") for a in o),
+            ck.ob("CMP", f.path, "resize-min-MAX_CONTRACT_STATE", has_call_origin(o, r"cmp::min$|Ord::min$") and any(a[0] == "const" and a[1].endswith("MAX_CONTRACT_STATE") for a in o),
                   "the new length is min(.., MAX_CONTRACT_STATE)", f.loc(bi))
             ck.ob("CMP", f.path, "limit-clamps-the-end-position", clamp_after_sum(f, t["args"][1]), "min(offset + length, MAX_CONTRACT_STATE): the clamp is applied to the end position, not to a summand", f.loc(bi))
         cmp_rejecting(ck, f, [("arg", 2)], [("call", r"State>::len$")], "Gt", "offset>len-rejected")
@@ -525,7 +525,7 @@ def run(ck):
     if f:
         for (bi, t) in f.calls(r"Vec::<T, A>::resize$"):
             o = f.origins(t["args"][1], deep=True)
-            ck.ob("CMP", f.path, "resize-min-MAX_CONTRACT_STATE", has_call_origin(o, r"cmp::min$") and any(a[0] == "const" and a[1].endswith("MAX_CONTRACT_STATE") for a in o), "with the limit flag, the new length is min(end, MAX_CONTRACT_STATE)", f.loc(bi))
+            ck.ob("CMP", f.path, "resize-min-MAX_CONTRACT_STATE", has_call_origin(o, r"cmp::min$|Ord::min$") and any(a[0] == "const" and a[1].endswith("MAX_CONTRACT_STATE") for a in o), "with the limit flag, the new length is min(end, MAX_CONTRACT_STATE)", f.loc(bi))
             ok2 = clamp_after_sum(f, t["args"][1])
             ck.ob("CMP", f.path, "limit-clamps-the-end-position", ok2,
                   "min(offset + length, MAX_CONTRACT_STATE): the clamp is applied to the end position" if ok2 else
